@@ -71,6 +71,11 @@ EST_PROGRAMS = {
     "dmm_second_pulse": dict(
         chans=[("l", "ryd_loc", "q1")], dmm=True,
         pre=[["add_dmm"], ["add", "l", "A", True]], target="dmm_0"),
+    # the detuning map is configured BEFORE the channels (it creates the ground-rydberg reference table); q1 is shifted after
+    # a long global pulse, the new pulse goes to a channel that targets q0 only: q0 has no barrier of its own
+    "dmm_first_disjoint": dict(
+        chans=[("g", "ryd_glob", None), ("l", "ryd_loc", "q0")], dmm="first", expect_barrier=0,
+        pre=[["add", "g", "A", False], ["shift", ["q1"], "ground-rydberg"]], target="l"),
     "other_basis": dict(
         chans=[("a", "ram_glob", None), ("b", "ram_loc", "q0")],
         pre=[["add", "a", "A", True], ["shift", ["q0"], "digital"], ["add", "b", "B", False]], target="b"),
@@ -85,9 +90,11 @@ def h_estimate(shape):
         from pulser.pulse import Pulse
 
         seq = l2.new_seq("virt")
+        if P.get("dmm") == "first":
+            seq.config_detuning_map(seq.get_register().define_detuning_map({"q0": 0.5, "q1": 1.0, "q2": 0.0}), "dmm_0")
         for (n, cid, it) in P["chans"]:
             seq.declare_channel(n, cid, **({"initial_target": it} if it else {}))
-        if P.get("dmm"):
+        if P.get("dmm") and P.get("dmm") != "first":
             seq.config_detuning_map(seq.get_register().define_detuning_map({"q0": 0.5, "q1": 1.0, "q2": 0.0}), "dmm_0")
         try:
             for i, op in enumerate(P["pre"]):
@@ -108,7 +115,7 @@ def h_estimate(shape):
         except l2.REFUSALS:
             raise core.Infeasible()
         ch = P["target"]
-        if P.get("dmm"):
+        if P.get("dmm") and P["target"].startswith("dmm"):
             from pulser.waveforms import ConstantWaveform
 
             new_wf = ConstantWaveform(inp.mult("dn", 4, 8, 400), -2.0)
@@ -119,6 +126,8 @@ def h_estimate(shape):
         proto = shape["protocol"]
         basis = seq.declared_channels[ch].basis
         barrier = smax([seq._basis_ref[basis][q].phase.last_time for q in seq._last(ch).targets])
+        if "expect_barrier" in P:
+            barrier = P["expect_barrier"]  # known from the program itself (independent of the implementation's bookkeeping)
         try:
             est = seq.estimate_added_delay(new, ch, proto)
         except l2.REFUSALS:
@@ -126,7 +135,7 @@ def h_estimate(shape):
         obs = [("c03:estimate_is_read_only", l2.snap_equal(before, l2.snapshot(seq)))]
         t0 = seq._schedule[ch][-1].tf
         try:
-            if P.get("dmm"):
+            if P.get("dmm") and ch.startswith("dmm"):
                 seq.add_dmm_detuning(new_wf, ch, proto)
             else:
                 seq.add(new, ch, proto)
